@@ -51,6 +51,7 @@ MCSpec == Init /\ [][MCNext]_rvars
 Bound ==
     /\ acct <= MaxAcct /\ Len(frames) <= MaxFrames /\ Len(acts) <= MaxActs /\ calls <= 3
     /\ \A i \in 1..Len(acts) : acts[i].rec <= 2
+    /\ \A p \in PermIds : grant[p] <= 2 /\ grant[p] >= -2
 
 \* the first violation raised is the one the host receives: it never changes, and is only
 \* cleared by the end of the host call; after a Timeout no further user call begins
@@ -61,7 +62,7 @@ DoomedIsAbsorbing ==
 
 \* an effect never happens while its permission is forbidden (or off by default)
 EffectOnlyWithPermission ==
-    [][\A p \in PermIds : (grant'[p] = "used" /\ grant[p] # "used") => Allowed(p)]_rvars
+    [][\A p \in PermIds : (grant'[p] < 0 /\ grant[p] >= 0) => Allowed(p) /\ grant[p] >= 1]_rvars
 
 \* the accounted total only ever moves by the size of one allocation
 AcctStepsAreAllocations ==
